@@ -89,6 +89,10 @@ func runShard(ops []op, out []res, hangAt *atomic.Int64, base int) error {
 	}
 	go func() {
 		w := bufio.NewWriterSize(stdin, 1<<16)
+		if *flagTier == "thorough" {
+			// at the thorough scale the source-level model G (an interpreter) is evaluated on every fourth op
+			w.WriteString("gsample 4\n")
+		}
 		for i := range ops {
 			w.WriteString(ops[i].Line())
 			w.WriteByte('\n')
